@@ -19,7 +19,7 @@ RULE = (
     "count; distinct = hash of all fields; non-trivial = at least 2 rows and 2 distinct treatment pairs"
 )
 ASSUMPTIONS = ["h5 files are compared through their loaded content, never byte-wise", "a change of the <U width of a string array on load is not a difference"]
-REQUIRED = {"very_large_screens": {"quick": 2, "thorough": 6}, "supplied_mappings_with_permuted_ids": {"quick": 100, "thorough": 1000}, "plate_merges_before_save": {"quick": 200, "thorough": 2000}, "roundtrips_checked": {"quick": 2000, "thorough": 15000}, "superset_mapping_roundtrips": {"quick": 500, "thorough": 4000}, "space_roundtrips": {"quick": 600, "thorough": 5000}}
+REQUIRED = {"file_name_style_1": {"quick": 200, "thorough": 1500}, "file_name_style_3": {"quick": 200, "thorough": 1500}, "very_large_screens": {"quick": 2, "thorough": 6}, "supplied_mappings_with_permuted_ids": {"quick": 100, "thorough": 1000}, "plate_merges_before_save": {"quick": 200, "thorough": 2000}, "roundtrips_checked": {"quick": 2000, "thorough": 15000}, "superset_mapping_roundtrips": {"quick": 500, "thorough": 4000}, "space_roundtrips": {"quick": 600, "thorough": 5000}}
 N_CASES = {"quick": 2400, "thorough": 19200}
 
 WEIRD_OBS = [float("nan"), float("inf"), float("-inf"), -0.0, 0.0, 5e-324, 1e-310, -1.0, 1.0, 0.1 + 0.2, 1e308, np.float64(np.nextafter(1.0, 2.0))]
@@ -158,6 +158,26 @@ def run_shard(rec, tier, seed, shard, nshards):
             w = {"kind": kind, "size": int(s.size), "arity": int(s.treatment_arity), "control": s.control_treatment_name, "names": s.treatment_names.tolist()[:5], "doses": s.treatment_doses.tolist()[:5], "superset_mapping": bool(superset)}
             prev = s
             ok = True
+            # the archive is named the way callers name files: an absolute path, a bare file name relative to the
+            # working directory, a relative path with a directory, a pathlib.Path, a name with blanks
+            style = int(rng.integers(0, 5)) if kind != "very-large" else 0
+            cwd0 = os.getcwd()
+            os.chdir(tmp)
+            fn_abs = fn
+            if style == 1:
+                fn = "s.h5"
+            elif style == 2:
+                os.makedirs(os.path.join(tmp, "sub dir"), exist_ok=True)
+                fn = os.path.join("sub dir", "s with blanks.h5")
+            elif style == 3:
+                import pathlib
+
+                fn = pathlib.Path("s.h5")
+            elif style == 4:
+                import pathlib
+
+                fn = pathlib.Path(tmp) / "s.h5"
+            rec.count("file_name_style_%d" % style)
             for cyc in range(n_cycles):
                 try:
                     h0 = screen_hash(prev)
@@ -177,6 +197,8 @@ def run_shard(rec, tier, seed, shard, nshards):
                     break
                 compare(rec, prev, cur, "cycle %d" % (cyc + 1), w)
                 prev = cur
+            os.chdir(cwd0)
+            fn = fn_abs
             if ok:
                 rec.count("roundtrips_checked")
                 rec.count("cycles_checked", n_cycles)
